@@ -131,7 +131,12 @@ def execute_phases(program, n1, n2, st, plan=None, trace=None, rng=None, skip_re
     if plan is None:
         return engine.execute(program, share_tables=st, only=only), None, None
     env = engine.execute(program[:n1], share_tables=st)
-    dec = sched.ReplayDecider(trace) if trace is not None else sched.RandomDecider(rng, plan["mean_q"])
+    if trace is not None:
+        dec = sched.ReplayDecider(trace)
+    elif plan.get("pct"):
+        dec = sched.PCTDecider(rng, plan["pct"]["nact"], plan["pct"]["d"], plan["pct"]["est"])
+    else:
+        dec = sched.RandomDecider(rng, plan["mean_q"])
     assign = {int(k): v for k, v in plan["assign"].items()}
     sim = sched.Sim(program[:n2], assign, dec, share_tables=st, gran=plan["gran"],
                     faults=[dict(f) for f in plan["faults"]], stall=dict(plan["stall"]) if plan["stall"] else None,
@@ -219,7 +224,7 @@ def one_run(seed, run, force_config=None, overrides=None, max_diag=3, seq_only=F
 
     bad, n_cmp, trail = compare_all(program, env, st, okw, n1, n2)
     res["n_cmp"] = n_cmp
-    res["xdigest"] = runner.digest([program, config, plan, trail, sorted(res["fired"].items())])
+    res["xdigest"] = runner.digest([program, config, c01.plan_shape(plan), trail, sorted(res["fired"])])
     res["digest"] = runner.digest([res["xdigest"], trace, res["steps"], res["schedule_hash"]])
     res["trail_digests"] = [runner.digest(t) for t in trail]
 
